@@ -3,6 +3,7 @@ package main
 import (
 	"bufio"
 	"bytes"
+	"encoding/binary"
 	"encoding/json"
 	"fmt"
 	"io"
@@ -449,6 +450,49 @@ func runC06(c *Ctx) {
 		}
 		if mClass != iClass {
 			R.Violate(Violation{Kind: "correspondence", Key: "model-hostile-outcome-differs", What: fmt.Sprintf("model outcome %q, code outcome %q", trunc(model, 120), implClass), Case: cs, Obligation: "correspondence c01.dec (hostile)"})
+		}
+	}
+
+	// ---- 0. Bool columns with one byte that is neither 0 nor 1, at every position of columns whose length is around the
+	// word / vector sizes a fast decoder may work in (plain, under Nullable and as array elements, typed and inferred)
+	{
+		sizes := []int{8, 9, 16, 17, 24, 33, 40, 64, 65}
+		if c.Thorough {
+			sizes = append(sizes, 127, 128, 129, 255, 256, 257, 1031)
+		}
+		for _, n := range sizes {
+			for p := 0; p < n; p++ {
+				for _, bad := range []byte{2, 0x80, 0xff} {
+					if !c.Thorough && n > 24 && bad != 2 && p%8 != 7 && p%8 != 0 {
+						continue
+					}
+					data := make([]byte, n)
+					for j := range data {
+						data[j] = byte((j*5 + p + n) & 1)
+					}
+					data[p] = bad
+					for _, shape := range []string{"Bool", "Nullable(Bool)", "Array(Bool)"} {
+						var wire []byte
+						rows := n
+						switch shape {
+						case "Bool":
+							wire = data
+						case "Nullable(Bool)":
+							wire = append(make([]byte, n), data...) // null map (all present), then the values
+						case "Array(Bool)":
+							rows = 1
+							wire = append(binary.LittleEndian.AppendUint64(nil, uint64(n)), data...)
+						}
+						cs := map[string]any{"kind": "col", "type": shape, "rows": rows, "bad_position": p, "bad_byte": bad, "hex": truncHex(wire)}
+						run(&c06Req{Kind: "col", Type: shape, Rows: rows, Hex: hx(wire)}, cs, "")
+						R.Case("bool|"+shape+"|"+hx(wire), true)
+						R.Count("shape:bool-bad-byte")
+						if cs["impl"] == "ok" {
+							R.Violate(Violation{Kind: "oracle", Key: "bool-byte-accepted", What: fmt.Sprintf("a %s column of %d values whose value %d is the byte 0x%02x decoded without an error", shape, n, p, bad), Case: cs})
+						}
+					}
+				}
+			}
 		}
 	}
 
